@@ -442,6 +442,46 @@ impl<'a> Gen<'a> {
                 self.tag("expr:field-access");
                 (E::Field(Box::new(s), "a".to_string()), Ty::Int)
             }
+            9 if self.p.type_tests && self.p.cells > 0 && self.pct(20) => {
+                // how many elements of a mixed array have a structured type: `std.len(([..]~ ? T) $])` with T a cell,
+                // array, tuple or function type (the filter type is printed into the helper and read back)
+                let u = Ty::union([Ty::Int, Ty::Str]);
+                let mut es: Vec<E> = Vec::new();
+                for (n, t) in self.vars_where(|t| matches!(t, Ty::Mut(_))).into_iter().take(2) {
+                    let _ = t;
+                    es.push(E::Var(n));
+                }
+                let n = 2 + self.rng.below(4);
+                for _ in 0..n {
+                    let e = match self.rng.below(8) {
+                        0 => E::Mut(Some(u.clone()), Box::new(self.expr(&Ty::Int, 0).0)),
+                        1 => E::Mut(Some(u.clone()), Box::new(self.expr(&Ty::Str, 0).0)),
+                        2 => E::Mut(Some(Ty::Int), Box::new(self.expr(&Ty::Int, 0).0)),
+                        3 => E::Mut(Some(Ty::Str), Box::new(self.expr(&Ty::Str, 0).0)),
+                        4 => self.expr(&Ty::Int, 0).0,
+                        5 => self.expr(&Ty::Str, 0).0,
+                        6 => E::Arr(vec![self.expr(&Ty::Int, 0).0, self.expr(&Ty::Str, 0).0]),
+                        _ => E::Tup(vec![self.expr(&Ty::Int, 0).0, self.expr(&Ty::Str, 0).0]),
+                    };
+                    es.push(e);
+                }
+                let t = self
+                    .rng
+                    .pick(&[
+                        Ty::mutc(u.clone()),
+                        Ty::mutc(Ty::Int),
+                        Ty::mutc(Ty::Str),
+                        Ty::union([Ty::mutc(Ty::Int), Ty::Str]),
+                        Ty::union([Ty::mutc(u.clone()), Ty::Int]),
+                        Ty::arr(u.clone()),
+                        Ty::Tup(vec![u.clone(), Ty::Str]),
+                        Ty::mutc(Ty::Any),
+                    ])
+                    .clone();
+                self.tag("iter:type-filter-structured");
+                let it = E::TypeFilter(Box::new(E::Post("~", Box::new(E::Arr(es)))), t);
+                (E::Len(Box::new(E::Post("$]", Box::new(it)))), Ty::Int)
+            }
             9 => {
                 // reduce an int iterator
                 let (it, et) = self.iter_expr(&Ty::Int, d);
